@@ -304,9 +304,9 @@ func (P *Program) externalDefaultEffect(f *ssa.Function, cc *ssa.CallCommon, e *
 		case *types.Map:
 			mapKeys(u, e.keys)
 		case *types.Interface:
-			if u.NumMethods() > 0 {
-				e.all = true
-			}
+			// a value behind an interface may be a pointer to anything (json.Unmarshal(data, &v),
+			// errors.As(err, &target), io.Writer ...): the callee may write what it points to
+			e.all = true
 		case *types.Signature:
 			e.all = true
 		}
